@@ -1,6 +1,7 @@
 (* Props/C08.v — truncated data is always detected. *)
 From Coq Require Import NArith ZArith List.
 From Desert Require Import Outcome IO Types Codec CodecB CodecWf TruncProofs CodecRt2 PropLemmas.
+From Desert Require Import History EvolutionSpec EvolutionTop C07Lemmas.
 Import ListNotations.
 Open Scope N_scope.
 
@@ -27,6 +28,24 @@ Theorem C08_any_accepted_input : forall f E t c r k st v st',
   forall j, j < nlen c -> is_err (dec a_ops f E t (mkA (ntake j c) k st)) = true.
 Proof. exact decA_truncated. Qed.
 
+(* under OTHER definitions: every strict prefix of a record written by version kw of a legal history
+   is rejected by the reader of version kr - older (does not know the last chunks) or newer (has
+   dropped fields) - whenever the pair is framed (stored version >= 1, or version 0 whose reader
+   knows every written field); at the real codecs, for field types that leave the string table alone *)
+Theorem C08_cross_version : forall f H kw kr nm vw st b st' k f' vs,
+  legal H = true -> history_neutral H = true ->
+  (kw <= length (h_steps H))%nat -> (kr <= length (h_steps H))%nat ->
+  let Ew := [mkD nm (DRecord (decl_at H kw))] in
+  let Er := [mkD nm (DRecord (decl_at H kr))] in
+  wf_val (S f) Ew (TNamed 0) (VNode 0 vw) = true ->
+  enc (S f) Ew (TNamed 0) (VNode 0 vw) st = Ok (b, st') ->
+  (S f + opt_depth (decl_at H kr) <= f')%nat ->
+  framed H kw kr = true -> expected H kw kr vw = Ok vs ->
+  forall j, j < nlen b ->
+    is_err (dec a_ops f' Er (TNamed 0) (mkA (ntake j b) k st)) = true.
+Proof. exact c08_cross_version. Qed.
+
 Print Assumptions C08_prefix.
+Print Assumptions C08_cross_version.
 Print Assumptions C08_prefix_impl.
 Print Assumptions C08_any_accepted_input.
